@@ -349,6 +349,26 @@ def check(run, model, tier):
                     return False
                 par_ok = any(isinstance(p, ast.For) and over_attributes(p.iter) and any(x is n for x in ast.walk(p))
                              for p in walk_shallow(mi.node))
+                if not par_ok:
+                    # a while loop that drains a local container derived from _attributes (`pending = set(declared)` ... `while pending: name = pending.pop()`)
+                    mdefs_ = local_defs(mi.node)
+
+                    def from_attributes(e_, depth=4):
+                        if '_attributes' in norm(e_):
+                            return True
+                        if depth <= 0:
+                            return False
+                        for x_ in ast.walk(e_):
+                            if isinstance(x_, ast.Name):
+                                if any(isinstance(d_, ast.AST) and from_attributes(d_, depth - 1) for d_ in mdefs_.get(x_.id, [])):
+                                    return True
+                        return False
+                    for p in walk_shallow(mi.node):
+                        if isinstance(p, ast.While) and any(x is n for x in ast.walk(p)) and from_attributes(p.test):
+                            pops = [x for x in ast.walk(p) if isinstance(x, ast.Call) and isinstance(x.func, ast.Attribute) and x.func.attr in ('pop', 'popleft', 'popitem')
+                                    and norm(x.func.value) in norm(p.test)]
+                            if pops:
+                                par_ok = True
                 run.inst('DESC.per-name', mi, 'one descriptor per declared name', par_ok,
                          '' if par_ok else 'descriptor creation is not inside a loop over _attributes', node=n)
     run.floor('descriptor installation sites', found, 1)
